@@ -623,3 +623,59 @@ func init() {
 		return p
 	}
 }
+
+func init() {
+	// C20: many concurrent API callers, stops and restarts under load, notifications, faults.
+	// Executed in free-run mode under the race detector.
+	families["c20"] = func(r *Rng) *Plan {
+		p := &Plan{Judge: []string{"C20"}}
+		p.H = Pick(r, []time.Duration{50 * ms, 100 * ms})
+		p.TTL = Pick(r, []time.Duration{3 * p.H, 5 * p.H})
+		n := 2 + r.Intn(2)
+		p.Insts = mkInsts(r, n, 1)
+		for i := range p.Insts {
+			c := &p.Insts[i]
+			c.V = Pick(r, []time.Duration{0, p.H, 2 * p.H})
+			c.Monitor = r.Bool(0.7)
+			c.Grace = Pick(r, []time.Duration{0, 2 * p.H, 4 * p.H})
+			if r.Bool(0.5) {
+				c.Prio = Pick(r, []int{1, 2, 3})
+				c.Takeover = true
+			}
+			if r.Bool(0.3) {
+				c.HasHealth = true
+				c.HealthRest = "h"
+				c.Health = "hhuhuuhhhuuuhh"
+				c.MaxHealth = 2
+			}
+			p.Actions = append(p.Actions, Action{At: r.Dur(0, 20*ms), Kind: AStart, Inst: i})
+		}
+		p.Store = StoreCfg{Req: [2]Dur{0, 5 * ms}, Resp: [2]Dur{0, 5 * ms}, WatchDelay: [2]Dur{0, 0}}
+		p.Until = r.Dur(1*sec, 3*sec)
+		kinds := []string{AReadAPI, AReadAPI, AReadAPI, AValidate, AValidateOD, ARegister, ADisconnect, AReconnect, AClosed, AStop, AStopCtx, AStart, ARestart, AStatus}
+		m := 60 + r.Intn(120)
+		for k := 0; k < m; k++ {
+			a := Action{At: r.Dur(0, p.Until), Kind: Pick(r, kinds), Inst: r.Intn(n)}
+			if a.Kind == AStopCtx {
+				a.DeleteKey = r.Bool(0.5)
+				a.WaitForDemote = r.Bool(0.5)
+				a.Timeout = Pick(r, []time.Duration{0, 100 * ms, 1 * sec})
+			}
+			p.Actions = append(p.Actions, a)
+			if r.Bool(0.3) { // bursts at the same instant
+				b := a
+				b.Kind = Pick(r, kinds)
+				p.Actions = append(p.Actions, b)
+			}
+		}
+		if r.Bool(0.5) {
+			from := r.Dur(0, p.Until)
+			p.Faults = append(p.Faults, Fault{Kind: Pick(r, []string{FPartition, FError}), Inst: r.Intn(n), From: from, To: from + r.Dur(p.H, p.TTL), Err: "timeout"})
+		}
+		if r.Bool(0.3) {
+			p.Actions = append(p.Actions, Action{At: r.Dur(0, p.Until), Kind: AOutDelete, Key: "g1"})
+		}
+		p.Sched = SchedCfg{Free: true, YieldProb: 1}
+		return p
+	}
+}
